@@ -33,11 +33,34 @@ def check(w):
         scen += part
     for s in scen:
         s["class"] = "tlc-small"
+    # weak-checksum collisions in small scope (DeltaColl): design check + every scenario replayed
+    MB = 3
+    coll_cfg = delta_cfg(9, 3, flush=2)
+    coll_cfg = coll_cfg.replace("SPECIFICATION Spec", "SPECIFICATION CollSpec").replace("IdenticalFree", "CollisionCaught") + "CONSTANT MaxBlocks = %d\n" % MB
+    rcoll = w.tlc_ok("DeltaColl", coll_cfg, label="DeltaColl-safety")
+    states += rcoll["distinct"]
+    transitions += rcoll["generated"]
+    out = w.path("coll-scen.raw")
+    gcfg = delta_cfg(9, 3, flush=2, s2set="{16}" if quick else "{0, 16}", spec="GenSpec", invariants=False, deadlock=False) + "CONSTANT MaxBlocks = %d\nINVARIANT Emit\n" % MB
+    g = w.tlc_ok("DeltaColl", gcfg, env={"VERIF_OUT": out}, workers=1, label="DeltaCollGen")
+    coll = read_ndjson(out)
+    if len(coll) != g["distinct"] or len(coll) < 100:
+        raise Broken("collision scenario generation: %d lines for %d initial states" % (len(coll), g["distinct"]))
+    for s in coll:
+        s["class"] = "tlc-collision"
+    ncoll = len(coll)
+    scen += coll
     counts = {"traces": 0, "trace_states": 0, "trace_transitions": 0}
     obs, rej, summ = p_delta.run_and_validate(w, scen, "small", v, counts)
-    # ---- 3. code -> spec: concrete-domain cases (sizes/blocks TLC cannot enumerate)
+    # ---- 3. code -> spec: concrete-domain cases (sizes/blocks TLC cannot enumerate),
+    #         each run alone and again inside multi-file sender sessions
     big = p_delta.big_cases(tier, seed)
     bobs, brej, bsumm = p_delta.run_and_validate(w, big, "big", v, counts)
+    big2 = [dict(b) for b in p_delta.big_cases(tier, seed + 1000)]
+    random.Random(seed).shuffle(big2)
+    sobs, srej, ssumm = p_delta.run_and_validate(w, big2, "bigsess", v, counts, session=4, first_id=100000)
+    bobs, brej = bobs + sobs, set(brej) | set(srej)
+    big = big + big2
     # ---- 4. negative controls: corrupted traces must be rejected, intact ones accepted
     rnd = random.Random(seed)
     good = [o for o in obs if o["id"] not in rej and o["toks"]] + [o for o in bobs if o["id"] not in brej and o["toks"]]
@@ -67,7 +90,7 @@ def check(w):
         "samples": samples,
         "exhaustive": True,
         "design_constants": {"alphabet": "-1..1", "MaxLen": L, "MaxBlk": B, "s2": [0, 16]},
-        "replayed_scenarios": {"tlc_enumerated": len(scen), "constants": [{"MaxLen": a, "MaxBlk": b, "s2": c} for a, b, c in gens], "concrete_domain": len(big)},
+        "replayed_scenarios": {"tlc_enumerated": len(scen), "constants": [{"MaxLen": a, "MaxBlk": b, "s2": c} for a, b, c in gens], "tlc_collision_pool": ncoll, "concrete_domain": len(big), "of_which_in_multi_file_sessions": len(big2)},
         "action_coverage": cov,
         "liveness_states": rl["distinct"],
         "distinct_nontrivial": nontrivial,
@@ -75,7 +98,7 @@ def check(w):
         "rule": "a case is one (basis, target, block length, strong-sum length) request answered by the real sender; "
                 "non-trivial = the answer contains at least one block reference",
         "negative_controls": {"corrupted": len(bad), "rejected": len(nrej)},
-        "worker_crashes": summ["crashed"] + bsumm["crashed"],
+        "worker_crashes": summ["crashed"] + bsumm["crashed"] + ssumm["crashed"],
     }
     v.assumptions = ["MD4 / truncated strong sums: collisions only where the generator constructs them (s2 = 0)",
                      "the reference receiver (wirekit) is validated against DeltaOps on all small cases (facts recomputed by TLC)",
